@@ -1604,6 +1604,24 @@ def _sorted(it, a, k, n):
     raise Unsupported("sorted()")
 
 
+HEX = z3.Function("py_hex", IntS, StrS)
+
+
+def _hex(it, a, k, n):
+    """hex(n): abstract text with the ground facts that matter: '0x' prefix for n >= 0, at least one digit"""
+    v = as_int(it.need(a[0]))
+    c = concrete_int(v)
+    if c is not None:
+        return VStr(hex(c))
+    digits = HEX(v)
+    # hex(n) == "0x" + digits for n >= 0, digits a non-empty lower-case hexadecimal numeral (ground facts)
+    it.ctx.assume(z3.InRe(digits, z3.Plus(z3.Union(z3.Range(z3.StringVal("0"), z3.StringVal("9")),
+                                                  z3.Range(z3.StringVal("a"), z3.StringVal("f"))))), "hex():digits")
+    if not it.spec and it.branch(v < 0, "hex-negative"):
+        return VStr(z3.Concat(z3.StringVal("-0x"), HEX(-v)))
+    return VStr(z3.Concat(z3.StringVal("0x"), digits))
+
+
 def _id(it, a, k, n):
     v = it.need(a[0])
     return VInt(getattr(v, "id", 0))
@@ -1689,7 +1707,7 @@ _BUILTINS = {
     "bytes": _bytes, "bytearray": _bytearray, "list": _list, "tuple": _tuple, "dict": _dict, "set": _set,
     "range": _range, "enumerate": _enumerate, "zip": _zip, "reversed": _reversed, "iter": _iter,
     "next": _next, "any": _any_all(True), "all": _any_all(False), "sum": _sum, "abs": _abs,
-    "callable": _callable, "type": _type, "chr": _chr, "ord": _ord, "sorted": _sorted, "id": _id,
+    "callable": _callable, "type": _type, "hex": _hex, "chr": _chr, "ord": _ord, "sorted": _sorted, "id": _id,
     "frozenset": _set,
 }
 
